@@ -115,7 +115,7 @@ def classify_crash(rc, errtxt):
                 frames.append("<".join(names))
         if frames:
             frames = sorted(set(frames))
-            return "deadlock", "deadlock/" + "|".join(frames[:3]), "library goroutines blocked forever in mutex acquisition: " + "; ".join(frames)
+            return "deadlock", "deadlock/" + "|".join(frames[:3]), "no progress with library goroutines waiting for a library mutex (a lock cycle, or a mutex held across a store operation that does not return: virtual time cannot advance past a goroutine that waits for a mutex): " + "; ".join(frames)
         return "trouble", "watchdog", errtxt[-3000:]
     m = re.search(r"^(panic: .*|fatal error: .*)$", errtxt, re.M)
     if m:
